@@ -138,8 +138,13 @@ func run(c Case) *harn.Failure {
 	var err error
 	var tokens []string
 	var tokenTypes []excellent.XTokenType
+	var asValue types.XValue
+	var gotTrimmed string
 	p := guard.Call(10*time.Second, func() {
 		got, _, err = excellent.NewEvaluator().Template(env, ctx, tpl, nil)
+		// the typed entry point (router operands, case arguments) must denote the same text as the string entry point
+		asValue, _, _ = excellent.NewEvaluator().TemplateValue(env, ctx, tpl)
+		gotTrimmed, _, _ = excellent.NewEvaluator().Template(env, ctx, strings.TrimSpace(tpl), nil)
 		_ = excellent.VisitTemplate(tpl, ctx.Properties(), true, func(tt excellent.XTokenType, token string) error {
 			if tt == excellent.EXPRESSION || tt == excellent.IDENTIFIER {
 				tokens = append(tokens, token)
@@ -192,6 +197,9 @@ func run(c Case) *harn.Failure {
 	}
 	if got != want {
 		return harn.Failf("output", "template %q evaluated to %q, want %q", tpl, got, want)
+	}
+	if tv, ok := asValue.(*types.XText); !ok || tv.Native() != gotTrimmed {
+		return harn.Failf("template-value-agrees", "template %q: TemplateValue gives %s, Template of the same (trimmed) text gives %q", tpl, types.Describe(asValue), gotTrimmed)
 	}
 	return nil
 }
